@@ -25,6 +25,53 @@ def scenarios(cfg5):
         sc.append(("lesc_reconnect", lambda p: (p.pair_lesc(io=3), ask(p), p.new_connection(0), ask(p), p.new_connection(2), ask(p))))
     if v == "none":
         sc.append(("none", lambda p: (ask(p), p.request(True), ask(p))))
+    return sc + collisions(cfg5)
+
+
+def collisions(cfg5):
+    """FAMILY: bond data base contents that collide with the identifiers of the pairing's own key. The key of
+    the pairing completed on this connection is requested with EDIV 0 / Rand 0 - and so is every bond a LESC
+    pairing stored. Pre-loaded bonds for this and for other peers under (0,0), (0,r), (e,0) and under the
+    identifiers of a bond stored a moment ago; re-pairing with the other kind of pairing; key requests for all
+    these identifiers before / after completion, after a failure and after a reconnect."""
+    v = cfg5[0]
+    sc = []
+    pair = {"legacy": lambda p: p.pair_legacy(io=3), "lesc": lambda p: p.pair_lesc(io=3)}
+    kinds = [k for k in ("legacy", "lesc") if v in (k, "both")]
+
+    def preloaded(kind):
+        def s(p):
+            p.preload_bond(0, 0, 0, 0x11); p.preload_bond(1, 0, 0, 0x22); p.preload_bond(0, 0, 7, 0x33); p.preload_bond(0, 5, 0, 0x44)
+            p.ask_all()
+            pair[kind](p)
+            p.ask_all()                      # (0,0): the key this pairing produced, not the stale bond
+            p.pdu([11]); p.ask_all()         # pairing failed: the data base answers again
+            p.new_connection(1); p.ask_all(); pair[kind](p); p.ask_all()
+        return s
+
+    def same_as_stored(kind):
+        def s(p):
+            pair[kind](p)
+            for a, r, e in list(p.bonds):
+                p.preload_bond(a, e, r, 0x55); p.preload_bond(a ^ 1, e, r, 0x66)
+            p.ask_all(); p.new_connection(0); p.ask_all(); p.new_connection(1); p.ask_all()
+        return s
+
+    def repair(first, second):
+        def s(p):
+            pair[first](p); p.ask_all()
+            p.request(second == "lesc", io=3)        # rejected in state completed, back to idle
+            pair[second](p); p.ask_all()             # (0,0): the second pairing's key
+            p.new_connection(0); p.ask_all()
+        return s
+
+    for k in kinds:
+        sc.append(("collide_preloaded_" + k, preloaded(k)))
+        sc.append(("collide_same_as_stored_" + k, same_as_stored(k)))
+        sc.append(("repair_%s_%s" % (k, k), repair(k, k)))
+    if v == "both":
+        sc.append(("repair_lesc_legacy", repair("lesc", "legacy")))
+        sc.append(("repair_legacy_lesc", repair("legacy", "lesc")))
     return sc
 
 
